@@ -215,6 +215,17 @@ def enum_grids(tier):
         yield {'n': n, 'other': 1 + (n * 3) % 11, 'dx': -dxs[n % len(dxs)], 'prec': 64}
 
 
+def _check_ft_unit(ctx, forward_ft_unit, dx, n, prec):
+    fu = ctx.call(forward_ft_unit, dx, n, True)
+    U.check_shape(fu, (n,), 'forward_ft_unit')
+    U.check_close(fu, U.cvec(n) / (n * dx), 1e-5 if prec == 32 else 1e-12, 'forward_ft_unit', 'shifted frequency axis n=%d' % n)
+    ctx.require(fu[n // 2] == 0 and np.count_nonzero(fu == 0) == 1, 'forward_ft_unit:zero', 'zero frequency not exactly at n//2')
+    fn_ = ctx.call(forward_ft_unit, dx, n, False)
+    ctx.require(fn_[0] == 0, 'forward_ft_unit:zero', 'unshifted axis does not start at 0')
+    U.check_close(np.fft.fftshift(np.asarray(fn_)), U.cvec(n) / (n * dx), 1e-5 if prec == 32 else 1e-12, 'forward_ft_unit',
+                  'unshifted axis')
+
+
 def check_grids(case, ctx):
     """fftrange / make_xy_grid / forward_ft_unit / RichData.x,.y,.slices(): exact zero at n//2 and nowhere else."""
     from prysm.fttools import fftrange, forward_ft_unit
@@ -252,15 +263,11 @@ def check_grids(case, ctx):
         xs, ys = ctx.call(make_xy_grid, n, dx=dx)
         U.check_shape(xs, (n, n), 'make_xy_grid:int-shape')
         ctx.require(xs[0, n // 2] == 0 and ys[n // 2, 0] == 0, 'make_xy_grid:zero', 'square grid origin not exact zero')
-        # forward_ft_unit
-        fu = ctx.call(forward_ft_unit, dx, n, True)
-        U.check_shape(fu, (n,), 'forward_ft_unit')
-        U.check_close(fu, U.cvec(n) / (n * dx), 1e-5 if prec == 32 else 1e-12, 'forward_ft_unit', 'shifted frequency axis n=%d' % n)
-        ctx.require(fu[n // 2] == 0 and np.count_nonzero(fu == 0) == 1, 'forward_ft_unit:zero', 'zero frequency not exactly at n//2')
-        fn_ = ctx.call(forward_ft_unit, dx, n, False)
-        ctx.require(fn_[0] == 0, 'forward_ft_unit:zero', 'unshifted axis does not start at 0')
-        U.check_close(np.fft.fftshift(np.asarray(fn_)), U.cvec(n) / (n * dx), 1e-5 if prec == 32 else 1e-12, 'forward_ft_unit',
-                      'unshifted axis')
+        # forward_ft_unit (also with other FFT modules behind the backend shim: one without next_fast_len, one without any helper functions)
+        be = ['scipy', 'numpy', 'transforms-only'][(n + other) % 3]
+        ctx.label('fft-backend:' + be)
+        with U.fft_backend(be):
+            _check_ft_unit(ctx, forward_ft_unit, dx, n, prec)
         # RichData coordinates and slices
         data = _marker(shape)
         rd = RichData(data, dx, 0.5)
@@ -446,6 +453,95 @@ def check_slices_hist(case, ctx):
 
 
 
+# ---- read-outs leave a data set as it was; copies are independent --------------------------------------------------------------
+READOUTS = ['slices2', 'slices1', 'plot-x', 'plot-y', 'plot-xy-inverted', 'plot-x-inverted', 'plot-az-inverted', 'plot2d', 'az', 'exact', 'copy-edit', 'copy-crop-recenter',
+            'support', 'centroid']
+
+
+def strat_readouts(tier):
+    ax = U.axis_len({'quick': 12, 'thorough': 24}[tier], 3)
+    return st.fixed_dictionaries({'shape': st.tuples(ax, ax).map(list), 'dx': st.sampled_from([1.0, 0.5, 0.2, 2.5]), 'dtype': st.sampled_from(['f8', 'f8', 'f4']),
+                                  'cls': st.sampled_from(['RichData', 'Interferogram']), 'touch': st.sampled_from(['none', 'xy', 'xy', 'xyrt']),
+                                  'ops': st.lists(st.sampled_from(READOUTS), min_size=1, max_size=5), 'seed': U.seeds})
+
+
+def check_readouts(case, ctx):
+    """read-outs (slices and their plots, plot2d, azimuthal statistics, exact_*, support, centroid) and work done on a copy() leave the data set as it was: data, grids
+    with their exact zero on sample n//2, and the slices through the origin sample."""
+    import matplotlib
+    matplotlib.use('Agg')
+    from matplotlib import pyplot as plt
+    from prysm._richdata import RichData
+    from prysm.interferogram import Interferogram
+    from prysm import psf as psfmod
+    ny, nx = case['shape']
+    dx = case['dx']
+    r = U.rng_of(case['seed'], 3)
+    data = (r.uniform(0.5, 2.0, (ny, nx)) + _marker((ny, nx)) * 1e-3).astype({'f8': np.float64, 'f4': np.float32}[case['dtype']])
+    obj = RichData(data.copy(), dx, 0.5) if case['cls'] == 'RichData' else Interferogram(data.copy(), dx, 0.5)
+    ctx.nt(True)
+    ctx.label('cls:' + case['cls'], 'touch:' + case['touch'], 'dtype:' + case['dtype'])
+    if case['touch'] != 'none':
+        obj.x, obj.y
+    if case['touch'] == 'xyrt':
+        obj.r, obj.t
+    wantx = np.broadcast_to(U.cvec(nx) * dx, (ny, nx))
+    wanty = np.broadcast_to((U.cvec(ny) * dx)[:, None], (ny, nx))
+
+    def coherent(after):
+        U.check_equal(np.asarray(obj.data), data, 'readout-modified-data:' + after, 'the data array changed (first difference reported) after ' + after)
+        U.check_close(obj.x, wantx, 1e-12, 'readout-modified-grid:' + after, 'x grid after ' + after)
+        U.check_close(obj.y, wanty, 1e-12, 'readout-modified-grid:' + after, 'y grid after ' + after)
+        ctx.require(obj.x[0, nx // 2] == 0 and obj.y[ny // 2, 0] == 0, 'readout-modified-grid:' + after, 'grid origin is no longer an exact zero after ' + after)
+        sl = ctx.call(obj.slices, True)
+        U.check_equal(sl.x[1], data[ny // 2, :], 'readout-modified-slices:' + after, 'x slice after ' + after)
+        U.check_equal(sl.y[1], data[:, nx // 2], 'readout-modified-slices:' + after, 'y slice after ' + after)
+        U.check_close(sl.x[0], U.cvec(nx) * dx, 1e-12, 'readout-modified-slices:' + after, 'x slice coordinates after ' + after)
+    try:
+        for op in case['ops']:
+            ctx.label('op:' + op)
+            if op in ('slices2', 'slices1'):
+                ctx.call(obj.slices, op == 'slices2')
+            elif op.startswith('plot-'):
+                which = {'plot-x': 'x', 'plot-y': 'y', 'plot-xy-inverted': ('x', 'y'), 'plot-x-inverted': 'x', 'plot-az-inverted': ('azavg', 'x')}[op]
+                if min(ny, nx) < 4 and 'az' in op:
+                    which = 'x'
+                ctx.call(ctx.call(obj.slices, True).plot, which, invert_x=op.endswith('inverted'))
+            elif op == 'plot2d':
+                ctx.call(obj.plot2d)
+            elif op == 'az':
+                if min(ny, nx) >= 4:
+                    sl = ctx.call(obj.slices, True)
+                    for name in ('azavg', 'azmedian', 'azmin', 'azmax', 'azpv', 'azvar', 'azstd'):
+                        getattr(sl, name)
+            elif op == 'exact':
+                if min(ny, nx) >= 4:
+                    ctx.call(obj.exact_x, 0.25 * dx)
+                    ctx.call(obj.exact_xy, 0.25 * dx, -0.5 * dx)
+            elif op == 'support':
+                obj.support, obj.support_x, obj.support_y, obj.shape, obj.size
+            elif op == 'centroid':
+                ctx.call(psfmod.centroid, obj.data, dx)
+            elif op == 'copy-edit':
+                c = ctx.call(obj.copy)
+                c.x -= 3.5 * dx
+                c.y *= -1
+                c.data *= 2
+                c.dx = 7 * dx
+            elif op == 'copy-crop-recenter':
+                c = ctx.call(obj.copy)
+                if case['cls'] == 'Interferogram' and ny >= 4 and nx >= 4:
+                    c.data[: ny // 2, :] = np.nan            # an off-centre valid region
+                    c.data[:, : 1] = np.nan
+                    ctx.call(c.crop)
+                    ctx.call(c.recenter)
+                else:
+                    c.x += dx
+            coherent(op)
+    finally:
+        plt.close('all')
+
+
 # ---- Interferogram coordinates after pad / crop with populated caches ------------------------------------------------------
 def strat_ifg_pad(tier):
     ax = U.axis_len({'quick': 16, 'thorough': 40}[tier], 3)
@@ -592,4 +688,5 @@ CLAUSES = [
     HypClause('interferogram_pad_coordinates', strat_ifg_pad, check_ifg_pad, examples={'quick': 250, 'thorough': 1500}),
     HypClause('interferogram_crop_recenter', strat_ifg_crop, check_ifg_crop, examples={'quick': 300, 'thorough': 2000}),
     HypClause('slices_follow_coordinates', strat_slices_hist, check_slices_hist, examples={'quick': 300, 'thorough': 2000}),
+    HypClause('readouts_and_copies', strat_readouts, check_readouts, examples={'quick': 150, 'thorough': 1000}, shards={'quick': 3, 'thorough': 6}),
 ]
